@@ -555,6 +555,59 @@ def fs6_cases(r, n_rand):
     return out
 
 
+def canon_rules6(r, n_rand):
+    """(nexthop, rules) in the canonical shape of `c08.flow6.reach` (Model/Construct/Flow.lean)"""
+    A = [[6, 0], [6, 0x20010db8 << 96], [6, (0x20010db8 << 96) | (1 << 95)], [6, (0x20010db800010002 << 64)], [6, (0x20010db8 << 96) | 1],
+         [6, 0xfe80 << 112], [6, 0xff << 120], [6, 2 ** 128 - 1], [6, int('a5' * 16, 16)], [4, 0x01020300]]
+    out = []
+    for a in A:
+        for ln in (0, 1, 7, 8, 9, 32, 33, 63, 64, 65, 127, 128, 129, -1):
+            for off in sorted(set([0, 1, 3, 7, 8, 9, 16, 31, 32, 33, 64, ln, ln - 1, ln + 1, 128, -1])):
+                for t in (1, 2):
+                    out.append((None, [[[t, {'prefix': a, 'len': ln, 'offset': off}]]]))
+    out.append((None, [[[1, {'prefix': A[1], 'len': 32, 'offset': 0}], [2, {'prefix': A[3], 'len': 64, 'offset': 16}]]]))
+    for t in range(3, 15):
+        for op in FS6_OPS:
+            for v in FS6_VALUES:
+                out.append((None, [[[t, '%s%d' % (op, v)]]]))
+    for op1 in FS6_OPS:
+        for op2 in FS6_OPS:
+            for text in ('%s80&%s90', '%s80|%s90', '=254|%s254&%s300', '%s1&%s65536&=7|=9', '=9|%s1&%s65536'):
+                out.append((None, [[[5, text % (op1, op2)]]]))
+    for text in ['', '=', '80', '=80|', '|=80', '&=80', '=80&', '=8x', '>=<=5', '==5', '=1|=2|', '||', '=1&&=2', '5>', '=080']:
+        out.append((None, [[[5, text]]]))
+        out.append((None, [[[3, '=6'], [5, text]]]))
+    for nh in (None, [4, 0x0a000001], [6, 1], [6, 2 ** 128 - 1]):
+        out.append((nh, [[[1, {'prefix': A[1], 'len': 32, 'offset': 0}], [3, '=6'], [5, '=80|=443'], [13, '=1000']]]))
+        out.append((nh, [[[3, '=6']], [[3, '=17']]]))
+        out.append((nh, []))
+        out.append((nh, [[]]))
+    out.append((None, [[[0, '=1']]]))
+    out.append((None, [[[14, '=1']]]))
+    out.append((None, [[[1, '=1']]]))
+    out.append((None, [[[3, {'prefix': A[1], 'len': 32, 'offset': 0}]]]))
+    for L in (238, 239, 240, 241, 255, 256, 4094, 4095, 4096, 4097):
+        for m in (1, 2, 3):
+            if (L - 2 - 2 * m) % 3 == 0 and (L - 2 - 2 * m) // 3 >= 1:
+                k = (L - 2 - 2 * m) // 3
+                rule = [[3, '|'.join('=%d' % (i % 200) for i in range(m))], [5, '|'.join('=%d' % (1000 + (i % 60000)) for i in range(k))]]
+                out.append((None, [rule]))
+                out.append((None, [rule, [[3, '=6']]]))
+                break
+    for _ in range(n_rand):
+        rule = []
+        if r.random() < 0.5:
+            ln = r.choice([0, 8, 32, 33, 64, 127, 128])
+            rule.append([r.choice([1, 2]), {'prefix': r.choice(A[:9]), 'len': ln, 'offset': r.choice([0, 0, 8, r.randint(0, max(ln, 1))])}])
+        for t in sorted(r.sample(range(3, 14), r.randint(0, 4))):
+            groups = ['&'.join('%s%d' % (r.choice(FS6_OPS), r.choice(FS6_VALUES[:14])) for _i in range(r.choice([1, 1, 2, 3])))
+                      for _g in range(r.choice([1, 1, 2, 3]))]
+            rule.append([t, '|'.join(groups)])
+        r.shuffle(rule)
+        out.append((r.choice([None, [4, 1], [6, 1]]), [rule] * r.choice([1, 1, 2])))
+    return out
+
+
 # ------------------------------------------------------------------------------------------------ C07 spaces
 
 def mp_cases(r, tier):
@@ -922,8 +975,55 @@ def model_part(res, r, tier, driver, walker):
             if not o.get('valid'):
                 res.disagree('the MODEL constructs a tunnel attribute that does not walk (C08c_tunnel instance)',
                              {'case': q if len(jdump(q)) < 2000 else 'big', 'hex': h[:400]}, None, o)
+        # IPv6 flow specification (Model/Construct/Flow.lean)
+        f6 = canon_rules6(r, 300 if tier == 'quick' else 20000)
+        fwalks = []
+        for (nh, rules), mo in zip(f6, walker.batch([{'op': 'c08.flow6.reach', 'nexthop': nh, 'rules': rules} for nh, rules in f6])):
+            if 'error' in mo or 'unmodelled' in mo:
+                res.stats.skipped += 1
+                continue
+            io = IC.flow6_construct(nh, rules)
+            res.stats.case(('mf6', jdump(nh), jdump(rules)))
+            res.stats.hit('flow6_model_' + ('ok' if 'hex' in mo else 'none' if 'none' in mo else 'raise'))
+            if io != mo:
+                res.disagree('IPv6 flow specification through MpReachNLRI.construct', {'nexthop': nh, 'rules': rules if len(jdump(rules)) < 2000 else 'big'},
+                             io if len(jdump(io)) < 2000 else 'big', mo if len(jdump(mo)) < 2000 else 'big')
+            if 'hex' in mo:
+                fwalks.append((rules, mo['hex']))
+        for (rules, h), o in zip(fwalks, walker.batch([{'op': 'spec.walk.attr', 'hex': h} for _, h in fwalks])):
+            res.stats.hit('model_flow6_walked')
+            if not o.get('valid'):
+                res.disagree('the MODEL constructs an IPv6 flow specification that does not walk (C08c_flowspec6_reach instance)',
+                             {'rules': rules if len(jdump(rules)) < 2000 else 'big', 'hex': h[:400]}, None, o)
+        # IPv4 flow specification: builder EVF's model behind the guard of fix_14
+        from suites import evf as E
+        import impl_evf as IE
+        rules4 = E.systematic_rules()
+        rules4 = rules4[::3] if tier == 'quick' else rules4
+        for t in (1, 2):
+            for p in ('10.0.0.0/33', '10.0.0.0/40', '10.0.0.0/255', '10.0.0.0/32', '0.0.0.0/0'):
+                rules4.append([[t, p]])
+                rules4.append([[t, p], [5, '=80']])
+        vals = [{'afi_safi': [1, 133], 'nexthop': ['', [4, 0x0a000001], [6, 1]][i % 3], 'nlri': [pairs]} for i, pairs in enumerate(rules4)]
+        f4walks = []
+        for v, mo in zip(vals, walker.batch([{'op': 'c08.evf.mpreach.construct', 'value': v} for v in vals])):
+            if 'error' in mo or 'unmodelled' in mo:
+                res.stats.skipped += 1
+                continue
+            io = IE.mpreach_construct(v)
+            res.stats.case(('mf4', jdump(v)))
+            if io != mo:
+                res.disagree('IPv4 flow specification through MpReachNLRI.construct (guarded model)', v if len(jdump(v)) < 2000 else 'big',
+                             io if len(jdump(io)) < 2000 else 'big', mo if len(jdump(mo)) < 2000 else 'big')
+            if 'hex' in mo:
+                f4walks.append((v, mo['hex']))
+        for (v, h), o in zip(f4walks, walker.batch([{'op': 'spec.walk.attr', 'hex': h} for _, h in f4walks])):
+            res.stats.hit('model_flow4_walked')
+            if not o.get('valid'):
+                res.disagree('the MODEL constructs an IPv4 flow specification that does not walk (C08b_flowspec_reach instance)',
+                             {'value': v if len(jdump(v)) < 2000 else 'big', 'hex': h[:400]}, None, o)
     else:
-        res.notes.append('c08.srte.construct not dispatched by this driver: SR policy / PMSI / tunnel models not exercised')
+        res.notes.append('c08.srte.construct not dispatched by this driver: SR policy / PMSI / tunnel / flow models not exercised')
     # extended communities: builder XC's model behind the guard of fix_5 (Model/Construct/ExtCommGuard.lean).  Link
     # bandwidth (16388) is left out: XC's model has it as a float, which /repo only does after XC's own repair.
     probe = walker.call({'op': 'c08.extcomm.construct', 'items': []})
